@@ -26,13 +26,15 @@ KEYS = ["a", "b", "c"]
 def install():
     C.stub(M, "int", S.sym_int)
     C.stub(SRT, "timedelta", S.sym_timedelta)
+    for m_ in (MRG, CHK, SRT, FKV):
+        C.shadow_module(m_)
 
 
 def base_events(x, n, dmin=0, data=None, ordered_nonoverlap=False):
     T, D, evs = [], [], []
     for i in range(n):
         k = x.zint("k%d" % i, 0, T_MAX_MS)
-        d = x.zint("d%d" % i, dmin, D_MAX_US)
+        d = x.ranged("dm%d" % i, (dmin + 999) // 1000, 2**17) * 1000 if C.FLOATS else x.zint("d%d" % i, dmin, D_MAX_US)
         T.append(k * 1000)
         D.append(d)
     if ordered_nonoverlap:
@@ -236,6 +238,10 @@ def harnesses(tier):
         chunks = [(3, True), (4, True), (5, True), (6, True), (3, False), (4, False), (5, False)]
         sorts = [3, 4, 5]
         filt = [3, 4, 5]
+    hs.append((Harness(PROP, "merge_events_by_keys-n2-k1-float-semantics", C.with_floats(h_merge), dict(n=2, nkeys=1, listvals=False), "merge_events_by_keys on 2 events with IEEE double semantics for any float arithmetic, durations whole ms < 2^17 in binary range pieces", split_depth=7, fresh_solver=True), 600))
+    hs.append((Harness(PROP, "chunk_events_by_key-n2-float-semantics", C.with_floats(h_chunk), dict(n=2, chrono=True), "chunk_events_by_key on 2 events with IEEE double semantics for any float arithmetic, durations whole ms < 2^17 in binary range pieces", split_depth=7, fresh_solver=True), 600))
+    hs.append((Harness(PROP, "sort_by_duration-n2-float-semantics", C.with_floats(h_sort), dict(n=2, which="duration"), "sort_by_duration on 2 events with IEEE double semantics for any float arithmetic, durations whole ms < 2^17 in binary range pieces", split_depth=7, fresh_solver=True), 600))
+    hs.append((Harness(PROP, "limit-concat-sum-n2-float-semantics", C.with_floats(h_limit_concat_sum), dict(n=2), "limit_events / concat / sum_durations on 2 events with IEEE double semantics for any float arithmetic, durations whole ms < 2^17 in binary range pieces", split_depth=7, fresh_solver=True), 600))
     for n, nk, lv, budget in merges:
         hs.append((Harness(PROP, "merge_events_by_keys-n%d-k%d%s" % (n, nk, "-listvalues" if lv else ""), h_merge, dict(n=n, nkeys=nk, listvals=lv),
                            "merge_events_by_keys on %d events, %d keys, symbolic presence pattern and values" % (n, nk), split_depth=8), budget))
